@@ -31,14 +31,20 @@ MANIFEST = {
             "1); on the tree itself it reports LY_EEXIST for every node, nothing created (_new_exists; default = empty "
             "non-presence containers: success, nothing created). Hypotheses are boolean predicates (swf, dwf, quotes_ok) that "
             "every generated tree is checked to satisfy; the both-quotes hypothesis and the top-level-position hypothesis are "
-            "shown necessary by refutation theorems with witnesses. Tie (T2 pathmodel): extracted model vs libyang on "
+            "shown necessary by refutation theorems with witnesses. The four theorems are also proved with ANY admissible "
+            "lexical form of the key / leaf-list values in the predicates and of the created node's value (*_variant: "
+            "[k='+07'], [k=' 7 '] find and create the node whose canonical int8 key is 7; var_ok / val_ok state "
+            "admissibility through canon). Tie (T2 pathmodel): extracted model vs libyang on "
             "generated two-module schemas (augments, equal local names, 1-3 keys, key-less lists, state leaf-lists with "
             "duplicates, nested lists, choices, RPC input / output, notifications) and trees: lyd_path() of EVERY node byte "
             "for byte; ly_path_parse() accept / reject, lyd_find_path() result (node, partial match, not found, error) and "
             "lyd_new_path2() result (created chain and attach point, LY_EEXIST, LY_EINVAL, LY_EVALID) on the printed and on "
             "mutated paths (dropped / duplicated / reordered key predicates, wrong / missing / redundant prefixes, positions "
-            "0 / out of range / 2^32, predicates on the wrong node kind, numbers for literals, white space, trailing garbage, "
-            "foreign XPath tokens). "
+            "0 / out of range / 2^32, predicates on the wrong node kind, numbers for literals, other lexical forms of typed values "
+            "(accepted and rejected ones), white space, trailing garbage, foreign XPath tokens); plus two property-level "
+            "expectations inside the same component: lyd_find_xpath() of every printed path selects exactly the node (Y), and "
+            "after lyd_change_term() of a key / leaf-list value the new printed path still identifies the node (G: path "
+            "search, XPath search, LY_EEXIST). "
             "Coq theorems (Properties_C15_ytext.v): the predicate literal lyd_path() prints for a key / leaf-list value is read "
             "back as exactly that value by the path parser and by the XPath literal rule, for every value not containing both quote "
             "characters (refuted with a witness otherwise). Tie: extracted model vs lyd_path/lyd_find_path/lyd_find_xpath (T2). "
@@ -53,8 +59,11 @@ MANIFEST = {
             "ly_path_check_predicate (PREFIX_FIRST, PRED_SIMPLE, duplicate-key test as coded), _ly_path_compile / "
             "ly_path_compile_snode / ly_path_compile_predicate, ly_path_eval_partial with lyd_find_sibling_first / "
             "lyd_compare_single list identity, lyd_new_path_ with lyd_new_path_check_find_lypath and lyd_create_list. "
-            "Restrictions of pathmodel: every key, leaf-list and leaf is of type string (the model has NO canonicalisation; "
-            "typed keys in non-canonical spelling are covered by the oracle paths-ops only); absolute paths; no XPath "
+            "Typed values (pathmodel): keys, leaf-lists and leaves of type string, int8..uint64 (coq/IntLex.v: white space, sign, "
+            "leading zeros, bounds), boolean, enumeration through PathModel.canon: lyd_path prints the canonical value, "
+            "ly_path_compile_predicate / lyd_new_path store the predicate and the value through the type, evaluation "
+            "compares canonical forms. Restrictions of pathmodel: no other types (identityref, instance-identifier, "
+            "decimal64, bits, union, empty: oracle paths-ops only), no range / length / pattern; absolute paths; no XPath "
             "variables; bytes above 127 only inside literals (the model of parse_ncname is ASCII); anydata created with the "
             "empty value only, anyxml not generated; LYD_DEFAULT only as it arises in parsed trees (empty non-presence "
             "containers); for creation in a non-empty tree only the created chain and its attach point are modelled, not the "
